@@ -8,7 +8,7 @@ from rules import common
 from rules import number_rules as NR
 
 INFO = {
-    "decided": "Four clauses of the property, each through its structural necessary condition, and nothing else: "
+    "decided": "Clauses of the property, each through its structural necessary condition, and nothing else: "
                "(1) 'collection functions preserve element and member order': an operation that reorders a "
                "collection (sort*, reverse / rev, swap_remove, swap, rotate, IndexMap swap_remove / sort_*, a "
                "BTreeMap / BTreeSet / BinaryHeap or std hash collection of JSON values) occurs in the function "
@@ -22,7 +22,11 @@ INFO = {
                "zeros included), and non-finite results never reach it. (4) the arity the documentation declares is "
                "the arity the implementation needs: for each of the 111 registrations the declared minimum suffices "
                "for the implementation to yield a value and no argument beyond the declared maximum is read; every "
-               "documented spelling resolves to its own function.",
+               "documented spelling resolves to its own function. (5) 'absent arguments give nothing': the adapters "
+               "that drop None (filter_map, flat_map, flatten) see evaluated arguments only in the four element-wise "
+               "mapping functions; no index, size or count is narrowed or re-signed by an `as` cast (one tabled site); "
+               "names and keys written in an expression are decoded as UTF-8, never byte by byte; the sorting "
+               "functions use the one comparator and a stable sort.",
     "not_decided": "What any function returns: (take xs 0), (take_last \"1234\" 2), (sum ..), the order inside the "
                    "sorting functions, the texts of the documentation. No run-time test stands in for that; the "
                    "property is claimed for the four structural clauses only.",
@@ -87,15 +91,101 @@ def order_census(rep, lib):
     return r
 
 
+# functions that map an expression over the elements / members of a collection: an element whose result is nothing is
+# left out of the result (the per-element evaluation may be skipped); everywhere else an absent argument makes the
+# whole call nothing
+ELEMENTWISE = {
+    "functions::list::functional::map": "map: elements whose result is nothing are left out",
+    "functions::list::functional::flat_map": "flat_map: the same, flattened",
+    "functions::object::functional::map_keys": "map_keys: members whose new key is nothing are left out",
+    "functions::object::functional::map_values": "map_values: members whose new value is nothing are left out",
+}
+NARROW_TABLE = {
+    "read_string": "json_parser read_string: a hex digit value 0..15 (i32 from char arithmetic) widened into the "
+                   "code unit accumulator",
+}
+_W = {"u8": 8, "i8": 8, "u16": 16, "i16": 16, "u32": 32, "i32": 32, "u64": 64, "i64": 64, "usize": 64, "isize": 64,
+      "u128": 128, "i128": 128}
+
+
+def absent_not_skipped(rep, lib):
+    r = rep.rule("C04-ABSENT-SKIP", "an argument that evaluates to nothing is never silently skipped: the adapters "
+                 "that drop None (filter_map, flat_map, flatten) are applied to evaluated arguments only by the "
+                 "element-wise mapping functions documented to leave such elements out", floor=4,
+                 analysis="A7 census of Iterator::filter_map / flat_map / flatten in every body under functions::")
+    for name, b in sorted(lib.bodies.items()):
+        head = name.split(" as ")[0].lstrip("<")
+        if not head.startswith("functions::"):
+            continue
+        for c in b.calls:
+            cal = c.callee or ""
+            if not cal.endswith(("Iterator::filter_map", "Iterator::flat_map", "Iterator::flatten")):
+                continue
+            key = "%s#%s@bb%d" % (head[len("functions::"):][:60], cal.rsplit("::", 1)[-1], c.bb)
+            mod = [m for m in ELEMENTWISE if head.startswith(m + "::")]
+            # does the adapter see evaluated arguments? (its closure, or the iterator it is applied to, evaluates a
+            # getter): decided on the closure body when there is one
+            evaluates = True
+            clos = [a for a in c.args[1:] if "{closure" in (a.get("ty") or "")]
+            if clos:
+                cn = re.search(r"\{closure@[^}]*\}|\{closure#\d+\}", clos[0].get("ty") or "")
+                cands = [bd for n2, bd in lib.bodies.items() if n2.startswith(name + "::{closure")]
+                if cands:
+                    evaluates = any((x.callee or "").endswith(("Get::get", "Arguments::apply")) or
+                                    (x.name or "").endswith("Arguments>::apply") for bd in cands for x in bd.calls)
+            if mod:
+                r.ok(key, "tabled: " + ELEMENTWISE[mod[0]], c.where(), nontrivial=False)
+            elif not evaluates:
+                r.ok(key, "the adapter does not see evaluated arguments", c.where(), nontrivial=False)
+            else:
+                r.bad(key, "%s drops the arguments that evaluate to nothing instead of making the call nothing: "
+                      "(f a b) with an absent b answers as if b had not been written" % cal, c.where())
+    return r
+
+
+def narrowing_casts(rep, lib):
+    r = rep.rule("C04-NARROW-CAST", "no integer is narrowed or re-signed by an `as` cast outside the tabled site: an "
+                 "index, size or count taken from an expression would wrap (#4294967296 would mean #0)", floor=1,
+                 analysis="A7 census of IntToInt casts whose target is narrower than, or of another signedness than, "
+                          "their source, in every body of the crate but the derived command-line code")
+    for name, b in sorted(lib.bodies.items()):
+        if "clap::" in name or name.split(" as ")[0].lstrip("<").startswith(("build_docs::", "selection_help::")):
+            continue
+        k = 0
+        for bb, idx, place, rv, _ in b.assignments():
+            if rv["k"] == "cast" and rv.get("cast") == "IntToInt":
+                src = (rv["op"].get("place") or {}).get("ty") or rv["op"].get("ty")
+                dst = rv.get("ty")
+                if src in _W and dst in _W and (_W[dst] < _W[src] or (src[0] != dst[0] and _W[dst] <= _W[src])):
+                    key = "%s#%s->%s[%d]" % (name[-60:], src, dst, k)
+                    k += 1
+                    tab = [why for fn, why in NARROW_TABLE.items() if name.endswith("::" + fn)]
+                    if tab and (src, dst) == ("i32", "u32"):
+                        r.ok(key, "tabled: " + tab[0], b.where(bb), nontrivial=False)
+                    elif rv["op"].get("k") == "const":
+                        r.ok(key, "a constant", b.where(bb), nontrivial=False)
+                    else:
+                        r.bad(key, "%s is cast to %s: values that do not fit wrap silently" % (src, dst), b.where(bb))
+    return r
+
+
 def run(ctx, rep):
     lib = ctx.lib
     # (1) order
     order_census(rep, lib)
     common.hash_order(rep, lib)
+    # ... including the order of ties in the sorting functions (shared with C07)
+    from rules import c07 as _c07
+    common.share(_c07, ctx, rep, {"C07-STABLE", "C07-ONE-ORDER"})
     # (2) no failure on ill-typed / absent arguments and at the boundaries of N: the functions:: part of the census
     from rules import c05 as _c05
     common.share(_c05, ctx, rep, {"C05-PANIC-CENSUS"}, key_prefixes=["<functions::", "functions::"],
                  floors={"C05-PANIC-CENSUS": 20})
+    absent_not_skipped(rep, lib)
+    narrowing_casts(rep, lib)
+    # names and keys written in an expression are UTF-8 text (shared with C15)
+    from rules import printer_rules as _PR
+    _PR.byte_text(rep, lib)
     # (3) whole doubles are integers, and only finite doubles become numbers
     NR.float_ctor(rep, lib)
     NR.float_window(rep, lib)
